@@ -104,12 +104,12 @@ class Runner:
                  exclude=sorted(exclude))
         return r
 
-    def write_replay(self, h, r, exclude=()):
+    def write_replay(self, h, r, exclude=(), tag=""):
         ce = r["counterexample"]
         spec = dict(prop=self.prop, harness=h.name, params=r.get("params", {}),
                     exclude=sorted(exclude), args_pickle=ce["pickle"], args_repr=ce["repr"],
                     message=(r.get("messages") or [{}])[0].get("message", ""))
-        sha = hashlib.sha1((h.name + ce["repr"]).encode()).hexdigest()[:10]
+        sha = hashlib.sha1((h.name + ce["repr"] + tag + str(r.get("shard"))).encode()).hexdigest()[:10]
         path = "%s/%s-%s-%s.json" % (REPL, self.prop, h.name, sha)
         json.dump(spec, open(path, "w"), indent=1)
         return path
@@ -125,7 +125,7 @@ class Runner:
                    wall_s=r.get("wall_s"))
         msg = (r.get("messages") or [{}])[0].get("message", "")
         if r.get("status") == "REFUTED" and "counterexample" in r:
-            path = self.write_replay(h, r)
+            path = self.write_replay(h, r, tag="reach-" + tag)
             rp = self.replay(path)
             res.update(replay=rp.get("outcome"), witness=r["counterexample"]["repr"],
                        functions=rp.get("functions", []), detail=rp.get("detail"))
